@@ -3,7 +3,7 @@ from .. import family, mapcase
 
 PROPS_FILES = ['theories/Props/C08.v']
 FINDINGS_FILES = []
-LEVEL = 'other'
+LEVEL = 'proof'
 TRUSTED = ['Model/Spec.v graph_terms: the reading of graph placement (subject-map + predicate-object-map graph maps, default graph iff none or rr:defaultGraph, no placement for NULL)',
            'Model/Mapping.v prepare: class -> POM, subject graphs -> POMs, default graph completion, in the code order; tied to the code by the correspondence']
 ASSUMES = ['the fourth component of every line is compared as text (the suite loads into a Graph and never sees it)']
